@@ -145,6 +145,12 @@ func NewBitmapAllocator(pool net.IPNet, size int) (*Allocator, error) {
 
 		bitmap: bitset.New(1 << uint(allocOrder)),
 	}
+	if alloc.bitmap.Len() != 1<<uint(allocOrder) {
+		// bitset.New recovers from a failed allocation and silently hands back an
+		// empty set: the first hinted allocation would then try to grow it to the
+		// size of the pool and take the server down
+		return nil, errors.New("Can't fit this pool using the bitmap allocator: the bitmap could not be allocated")
+	}
 
 	return &alloc, nil
 }
